@@ -10,6 +10,7 @@
   what is proved instead is named `*_partial` with the extra hypothesis visible.
 -/
 import GoSecs.Lemmas.Supervisor
+import GoSecs.Lemmas.SupervisorReplay
 import GoSecs.Gen.Consts
 import GoSecs.Gen.Funcs
 import GoSecs.Gen.Facts
@@ -89,6 +90,15 @@ theorem t7_from_selected_noop (c : Cfg) (hpc : c.pc = .loaded .t7 .S) :
 theorem select_lost_superseded (c : Cfg) (q : List Ev) (hst : c.stopped = false) (hpc : c.pc = .idle)
     (hq : c.queue = .selLost :: q) (hs : c.st = .S) :
     step c .runLoad = { c with queue := q } := selLost_abandoned c q hst hpc hq hs
+
+/-- **Never undone or replayed by later internal processing.** On every schedule whose only causes are
+    the synchronous commits (TCP up, select accepted, select lost: every change already took effect at
+    its commit's CAS — no disconnect, T7 or close event), the supervisor's asynchronous processing of
+    the queued events never changes `State()`: neither the load half nor the store half of any step. -/
+theorem commit_events_never_replayed (as : List Act) (h : ∀ a ∈ as, a.commitOnly = true) :
+    (step (run init as) .runLoad).st = (run init as).st ∧
+    (step (run init as) .runCommit).st = (run init as).st :=
+  replay_run_steps_keep_state _ (replayInv_run as h)
 
 /-- **A superseded Select is not replayed.** While a Deselect commit's event is still on its way
     (the peer pipelined Select.req + Deselect.req), processing the earlier select-accepted event never
